@@ -85,7 +85,6 @@ use flate2::{Compression as GzCompression, write::GzEncoder};
 use regex::Regex;
 use serde::{Serialize, de::DeserializeOwned};
 use std::io::{BufRead, BufReader, Write};
-use std::path::Path;
 #[cfg(feature = "compression-xz")]
 use xz2::write::XzEncoder;
 #[cfg(feature = "compression-zstd")]
@@ -234,10 +233,10 @@ where
 {
     // Determine the compression format from the file extension
     let key_lower = key.to_lowercase();
-    let extension = Path::new(&key_lower).extension();
-    let final_buffer = if extension
-        .is_some_and(|ext| ext.eq_ignore_ascii_case("gz") || ext.eq_ignore_ascii_case("gzip"))
-    {
+    // Same suffix test as the reader side (`auto_detect_reader`), so that every key the
+    // reader decompresses by name is also compressed here (e.g. the key ".gz").
+    let has_suffix = |suffixes: &[&str]| suffixes.iter().any(|s| key_lower.ends_with(s));
+    let final_buffer = if has_suffix(&[".gz", ".gzip"]) {
         #[cfg(feature = "compression-gzip")]
         {
             compress_jsonl_gzip(data, bucket, key)?
@@ -251,9 +250,7 @@ where
                 ),
             ));
         }
-    } else if extension
-        .is_some_and(|ext| ext.eq_ignore_ascii_case("zst") || ext.eq_ignore_ascii_case("zstd"))
-    {
+    } else if has_suffix(&[".zst", ".zstd"]) {
         #[cfg(feature = "compression-zstd")]
         {
             compress_jsonl_zstd(data, bucket, key)?
@@ -267,9 +264,7 @@ where
                 ),
             ));
         }
-    } else if extension
-        .is_some_and(|ext| ext.eq_ignore_ascii_case("bz2") || ext.eq_ignore_ascii_case("bzip2"))
-    {
+    } else if has_suffix(&[".bz2", ".bzip2"]) {
         #[cfg(feature = "compression-bzip2")]
         {
             compress_jsonl_bzip2(data, bucket, key)?
@@ -283,7 +278,7 @@ where
                 ),
             ));
         }
-    } else if extension.is_some_and(|ext| ext.eq_ignore_ascii_case("xz")) {
+    } else if has_suffix(&[".xz"]) {
         #[cfg(feature = "compression-xz")]
         {
             compress_jsonl_xz(data, bucket, key)?
